@@ -1331,7 +1331,10 @@ fn expand(ctx: &Ctx, si: usize, f: FNode, visited: &HashSet<Box<[u8]>>, keep_nod
             }
         }
         let key = canon(&child.model, child.now);
-        let unchanged = child.now == parent.now && so.obs.as_ref() == Some(&parent_obs);
+        // a step that diverged in the window only (resynced) is never "unchanged": the model moved even
+        // if the implementation's observable state did not (e.g. a verification it failed to count); below
+        // such a step (wdiv) the model's window runs on its own, so observations no longer stand for the key
+        let unchanged = so.mismatches.is_empty() && !child.wdiv && child.now == parent.now && so.obs.as_ref() == Some(&parent_obs);
         if unchanged {
             // the complete private state equals the parent's: the clone can serve the next operation
             if key != parent_key {
